@@ -26,6 +26,7 @@ THEOREMS = [
     "TornadoModel.C29.run_feed_is_writes",
     "TornadoModel.C29.wire_content_length_is_encoded_length",
     "TornadoModel.C29.vary_on_every_response",
+    "TornadoModel.C29.gzip_only_if_accepted",
     "TornadoModel.C29.identity_when_not_compressing",
     "TornadoModel.C29.transformFirst_shape",
 ]
@@ -55,7 +56,10 @@ CLAUSES = {
         "writes; clean programs, all framings, under the gzip contract) + run_feed_is_writes (transform fed exactly the writes, "
         "closed once at the end; no contract) + decoded_equals_written / identity_when_not_compressing (transform level); "
         "tie only: HEAD, body-less statuses, handler Content-Length, error path",
-    "compression only for compressible types and only when Accept-Encoding mentions gzip": "compress_only_if + not_compressed_passthrough",
+    "compression only for compressible types and only when Accept-Encoding mentions gzip":
+        "compress_only_if + not_compressed_passthrough (the first-chunk decision, any header map) + gzip_only_if_accepted (run level, every program: "
+        "the gzip writer is called / the transform compresses only if Accept-Encoding mentions gzip) + decoded_per_content_encoding "
+        "(clean runs: Content-Encoding gzip on the wire iff the transform compressed); tie only: the Content-Type the client sees is the one the decision used (oracle: C29 decide on the wire headers)",
     "Vary always includes Accept-Encoding": "vary_on_every_response (run level, every program and request shape incl. error pages / HEAD / 304: every header block write_headers serialises has a Vary line listing Accept-Encoding) + vary_always (every path through transform_first_chunk); tie only: the serialised block = the bytes on the wire outside clean programs",
     "a Content-Length, when present, equals the encoded body length": "wire_content_length_is_encoded_length (wire level, clean programs: every Content-Length the strict client sees = length of the body on the wire = the transform's output) + cl_equals_encoded_length + cl_dropped_when_streaming (transform level, any header map incl. handler-set Content-Length); tie only: handler-set Content-Length on the wire (C02 framing oracle)",
 }
